@@ -15,6 +15,8 @@ def parse_repr(text):
         "UUID": uuid.UUID,
         "bytearray": bytearray,
         "array": __import__("array").array,
+        "defaultdict": __import__("collections").defaultdict,
+        "int": int,
         "__builtins__": {"True": True, "False": False, "None": None, "bytearray": bytearray, "set": set,
                          "frozenset": frozenset, "float": float, "range": range, "bytes": bytes},
     }
@@ -90,4 +92,6 @@ def _canon(o):
         return "[" + ",".join(_canon(x) for x in o) + "]"
     if t is tuple:
         return "(" + ",".join(_canon(x) for x in o) + ")"
+    if t is memoryview:
+        return "memoryview" + repr(o.tobytes())
     return t.__name__ + repr(o)
